@@ -372,6 +372,7 @@ func oracle(pl *plan, w *relaysim.World, preps []*prepCall, stopT time.Duration,
 			}
 			got := mine(evs)
 			if !w.ActiveAt(v, rd.Epoch) {
+				out.Probes["validator-not-active-in-asked-epoch"]++
 				if len(got) > 0 {
 					report(Viol("C11/registration-for-inactive-validator", "round %d (epoch %d): %s is not a validating account of that epoch but was registered with %s", ri, rd.Epoch, v.Name, got[0].party))
 				}
@@ -506,6 +507,9 @@ func oracle(pl *plan, w *relaysim.World, preps []*prepCall, stopT time.Duration,
 			for _, s := range rl.Subs {
 				if in(s.Step) && !s.OK {
 					out.Probes["round-with-failing-relay"]++
+					if s.EndT == 0 || s.EndT-s.T > 2*time.Second {
+						out.Probes["round-with-hanging-relay"]++
+					}
 				}
 			}
 		}
